@@ -69,6 +69,9 @@ def run(ctx, rep):
     r185(ctx, rep)
     r186(ctx, rep)
     r187(ctx, rep)
+    rep.rule("R18.8", "arguments of the trust-region methods agree with their parameters (no swapped arguments)")
+    from . import common
+    common.check_swapped_args(ctx, rep, "R18.8", lambda g: g.cls is not None and g.cls.name == "TrustRegion")
 
 
 def r181(ctx, rep):
